@@ -30,7 +30,15 @@ type checkCfg struct {
 	Rule        string        `json:"rule"`
 }
 
-const repoDir = "/repo"
+// repoDir is the tree under check: /repo, unless VERIF_REPO_DIR names another
+// checkout of the same module (development only: seeded changes are tried in a
+// scratch worktree so that /repo itself stays usable meanwhile).
+var repoDir = func() string {
+	if d := os.Getenv("VERIF_REPO_DIR"); d != "" {
+		return d
+	}
+	return "/repo"
+}()
 const modPath = "github.com/glyphlang/glyph"
 
 var verifDir = "/verif"
